@@ -384,3 +384,52 @@ def run_check(prop, module, argv):
     print("%s %s: obligations %d/%d, evaluations %d, failing %d, diffs %d, tie-problems %d, %.1fs" % (
         prop, tier, cov["discharged"], cov["obligations"], cov["evaluations"], len(ctx.failing), len(ctx.diffs), len(ctx.tie) + len(hard), time.time() - t0))
     return 1 if nviol else 0
+
+# ----------------------------------------------------------------------------- shared engine runs
+def tree_hash(paths, exts=None):
+    h = hashlib.sha256()
+    for root in paths:
+        if os.path.isfile(root):
+            h.update(open(root, "rb").read()); continue
+        for dp, dn, fs in sorted(os.walk(root)):
+            dn[:] = sorted(d for d in dn if d not in ("target", ".git", "build"))
+            for f in sorted(fs):
+                if exts and not f.endswith(exts): continue
+                p = os.path.join(dp, f); h.update(p.encode()); h.update(open(p, "rb").read())
+    return h.hexdigest()
+
+def source_key():
+    return tree_hash([os.path.join(REPO, "src"), os.path.join(REPO, "Cargo.toml"), os.path.join(ROOT, "harness", "src"), os.path.join(ROOT, "harness", "Cargo.toml"),
+                      os.path.join(ROOT, "extract"), os.path.join(ROOT, "lib"), os.path.join(ROOT, "translators"), TH], None)
+
+def cached(name, keyparts, fn):
+    """run fn() once per (name, key) — key includes every source that can influence the result"""
+    d = os.path.join(BUILD, "cache"); os.makedirs(d, exist_ok=True)
+    key = hashlib.sha256(("|".join(str(k) for k in keyparts) + "|" + source_key()).encode()).hexdigest()[:24]
+    p = os.path.join(d, "%s-%s.json" % (name, key))
+    if os.path.exists(p) and not os.environ.get("VERIF_NOCACHE"):
+        try: return json.load(open(p))
+        except Exception: pass
+    res = fn()
+    json.dump(res, open(p + ".tmp", "w")); os.replace(p + ".tmp", p)
+    # keep the cache small
+    fs = sorted((os.path.getmtime(os.path.join(d, f)), f) for f in os.listdir(d))
+    for _, f in fs[:-40]: os.remove(os.path.join(d, f))
+    return res
+
+def run_pipes(jobs, timeout=3000):
+    """jobs: list of (bvh_cmd, model_cmd); run all in parallel; returns list of (rc_h, rc_m, out, err)"""
+    procs = []
+    for bvh_cmd, model_cmd in jobs:
+        ph = subprocess.Popen(bvh_cmd, stdout=subprocess.PIPE, stderr=subprocess.PIPE)
+        pm = subprocess.Popen(model_cmd, stdin=ph.stdout, stdout=subprocess.PIPE, stderr=subprocess.PIPE, text=True)
+        ph.stdout.close(); procs.append((ph, pm))
+    res = []
+    for ph, pm in procs:
+        try:
+            out, err = pm.communicate(timeout=timeout)
+            herr = ph.stderr.read().decode(errors="replace"); ph.wait(timeout=60)
+            res.append((ph.returncode, pm.returncode, out, (herr + err)[-2000:]))
+        except subprocess.TimeoutExpired:
+            pm.kill(); ph.kill(); res.append((124, 124, "", "timeout"))
+    return res
